@@ -5,7 +5,7 @@
    otherwise -1.  (A base-0 prefix with no digit after it - "0x" - is accepted as 0 by the library like strtol's "0"; not asserted.) */
 #define VF_REC_ALLOC 1
 #include "vh.h"
-#include <ctype.h>
+
 #define AB(x) ((x) < 0 ? -(x) : (x))
 #ifndef DS
 #define DS 0
@@ -19,15 +19,6 @@ mp_size_t mpn_set_str (mp_ptr rp, const unsigned char *str, size_t str_len, int 
   CHECK (base >= 2 && base <= 62, "mpn_set_str: base in range");
   for (i = 0; i < LEN; i++) if (i < str_len) { CHECK (str[i] < base, "mpn_set_str precondition: digit bytes below the base"); v = v * base + str[i]; }
   rp[0] = v; return v != 0; }
-#endif
-#ifndef REPLAY
-/* glibc's isspace() macro reads (*__ctype_b_loc())[c] & _ISspace: ASCII "C" locale table for the model */
-static unsigned short vf_ctype_tab[384];
-static const unsigned short *vf_ctype_ptr = vf_ctype_tab + 128;
-const unsigned short **__ctype_b_loc (void)
-{ vf_ctype_tab[128 + ' '] = _ISspace; vf_ctype_tab[128 + '\t'] = _ISspace; vf_ctype_tab[128 + '\n'] = _ISspace;
-  vf_ctype_tab[128 + '\v'] = _ISspace; vf_ctype_tab[128 + '\f'] = _ISspace; vf_ctype_tab[128 + '\r'] = _ISspace;
-  return &vf_ctype_ptr; }
 #endif
 static int sp (int c) { return c == ' ' || c == '\t' || c == '\n' || c == '\v' || c == '\f' || c == '\r'; }
 static int dv (int c, int base)
